@@ -91,7 +91,7 @@ def main():
             "level_note": note,
             "technique": tech,
         })
-    hooks_commits = ["b58869d", "af39aea"]
+    hooks_commits = ["e7596f1", "2b22de9"]
     m = {
         "version": 1,
         "setup_cmd": "/venv/bin/python -c 'import hypothesis' 2>/dev/null || PIP_NO_INDEX=1 /venv/bin/pip install --no-index --find-links /opt/veriftools/wheels hypothesis",
